@@ -41,6 +41,11 @@ Report(av, dr, b) ==
      PrintT(<<"TRACE-RESULT", ToJson([lines |-> Len(Trace), viol |-> av, drift |-> dr,
                                        branches |-> [x \in DOMAIN b |-> b[x]]])>>)
 
+\* at most MaxPerPred recorded failures per predicate (a broken tree fails at nearly every step; the set must stay small)
+MaxPerPred == 40
+AddViol(av, names, line) ==
+  av \cup {<<n, line>> : n \in {x \in names : Cardinality({v \in av : v[1] = x}) < MaxPerPred}}
+
 StateLst(ln) == IF "st" \in DOMAIN ln THEN ln.st ELSE NoLst
 
 TraceStart ==
@@ -68,8 +73,8 @@ TraceStep ==
   /\ l <= Len(Trace) /\ Line.ev \in {"press", "release", "axis", "disconnect", "ignored"}
   /\ \E in \in {InputOf(Line)} : \E r \in {Apply(cfg, st, in)} :
         /\ Observe(in, r, Line.o, Line.sg, StateLst(Line))
-        /\ LET nv == allviol \cup {<<n, l>> : n \in viol'}
-               nd == drift
+        /\ LET nv == AddViol(allviol, viol', l)
+               nd == IF Cardinality(drift) > 200 THEN drift ELSE drift
                      \cup (IF Conforms(Line.o, r) THEN {} ELSE {<<l, "output">>})
                      \cup (IF "st" \in DOMAIN Line /\ Line.st.notes # Cardinality(DOMAIN r.s.trk) + Cardinality(DOMAIN r.s.atrk)
                              THEN {<<l, "notes">>} ELSE {})
